@@ -97,7 +97,10 @@ func (snt *ScrapligoNetconfTarget) EditConfig(target string, config string) (*ty
 	if err != nil {
 		return nil, err
 	}
-	if len(resp.ErrorMessages) > 0 {
+	// a reply that carries rpc-errors is only acceptable if all of them are warnings. scrapligo sorts the rpc-errors into
+	// ErrorMessages and WarningErrorMessages by their (unprefixed) error-severity element; a failed reply in which it
+	// recognised neither (e.g. a reply whose elements carry a namespace prefix) is a failure as well.
+	if resp.Failed != nil && (len(resp.ErrorMessages) > 0 || len(resp.WarningErrorMessages) == 0) {
 		return nil, resp.Failed
 	}
 
